@@ -1263,3 +1263,176 @@ class BufferAliases(Contract):
 
 
 CONTRACTS += [JobDocGetter(), JobDocSetter(), BufferAliases()]
+
+
+# ============================================================================= Job.clear / Job.reset
+
+
+class SJobListing(Sym):
+    """os.listdir(job directory): the names of the present entries, each once"""
+
+    def __init__(self, ex, fs, p, me):
+        from pyvc.theory_j import EX_idx
+        self.n = z3.Int(ex.fresh_name("n_entries"))
+        self.name = z3.Function(ex.fresh_name("entry"), z3.IntSort(), Name)
+        a, b = z3.Ints("ea eb")
+        nm = z3.Const("e_nm", Name)
+        k = JD.mk(p, me)
+        ex.assume(self.n >= 0)
+        ex.assume(z3.ForAll([a, b], z3.Implies(z3.And(0 <= a, a < b, b < self.n), self.name(a) != self.name(b))))
+        ex.assume(z3.ForAll([nm], (fs.ent[k][nm] != Node.Absent) == EX_idx(0, self.n, lambda j: self.name(j) == nm)))
+
+    def sym_iter(self, ex):
+        from pyvc.core import CutSeq
+        from pyvc.theory_fs import SName
+        return CutSeq(self.n, lambda interp, i: SName(self.name(i)), label="os.listdir(self.path)")
+
+
+def stub_job_document(interp, b):
+    """callee view of the Job.document getter (clauses of JobDocGetter.post)"""
+    from .jobfs import SDoc
+    ex, ctx = interp.ex, interp.ctx
+    job = b["self"]
+    if job.fields["_document"] is None:
+        p, me = job.fields["_project"].p, job.fields["_id"].e
+        k = JD.mk(p, me)
+        if not ex.decide(ctx.fs.dirs[k], "document:dir-exists"):
+            ctx.fault(interp, "document-init")
+            ctx.effect(interp, "document: init creates the job directory", ctx.fs.with_ws(p).with_dir(p, me, True, ctx.fs.ent[k]))
+        job.fields["_document"] = SDoc(LIn(p, me, Name.DOC), True)
+    return job.fields["_document"]
+
+
+class ClearCtx(JobCtx):
+    def x_listdir(self, interp, loc):
+        ex = interp.ex
+        if not isinstance(loc, LJob):
+            raise Unsupported("listdir of this location")
+        self.interfere(interp)
+        if not ex.decide(self.fs.dirs[JD.mk(loc.p, loc.i)], "listdir:jobdir-exists"):
+            raise self.enoent()
+        self.fault(interp, "listdir")
+        lst = SJobListing(ex, self.fs, loc.p, loc.i)
+        self.ghost["listing"] = lst
+        return lst
+
+
+class JobClear(FSContract):
+    target = f"{JOB}.Job.clear"
+    properties = ("C03", "C11")
+    ctx_class = ClearCtx
+    shard_bits = 2
+
+    def make_ctx(self, case):
+        import os
+        ctx = super().make_ctx(case)
+        ctx.externals[os.listdir] = ctx.x_listdir
+        ctx.callee_contracts[f"{JOB}.Job.document"] = stub_job_document
+        return ctx
+
+    def loops(self, case):
+        from pyvc.interp import LoopSpec
+        from pyvc.theory_j import EX_idx
+
+        def inv(interp, fr, i, seq):
+            ctx = interp.ctx
+            g = ctx.ghost
+            lst, pre = g["listing"], g["pre"]
+            p, me = pre["p"], pre["me"]
+            k = JD.mk(p, me)
+            fs0, fs = ctx.fs0, ctx.fs
+            nm = z3.Const("inv_nm", Name)
+            processed = lambda x: EX_idx(0, i, lambda j: lst.name(j) == x)
+            keep = lambda x: z3.Or(x == Name.SP, x == Name.DOC)
+            return z3.And(jd_frame(fs0, fs, p, me), fs.dirs == fs0.dirs, fs.ws == fs0.ws,
+                          z3.ForAll([nm], fs.ent[k][nm] == z3.If(z3.And(processed(nm), z3.Not(keep(nm))), Node.Absent, fs0.ent[k][nm])))
+
+        def hv(interp, fr, tag):
+            ctx = interp.ctx
+            ctx.fs = FS.fresh(interp.ex.fresh_name("clr"))
+        return {"os.listdir(self.path)": LoopSpec("entries", inv, havoc={"$fs": hv}, scratch=("fn", "path"))}
+
+    def setup(self, interp, case):
+        ex, ctx = interp.ex, interp.ctx
+        ctx.fs_init(ex)
+        proj = mk_project(ex)
+        job = mk_job(interp, proj, "me")
+        pre = {"job": job, "p": proj.p, "me": job.me}
+        ctx.ghost["pre"] = pre
+        return [job], {}, pre
+
+    def crash_invariant(self, interp, ctx, label, fs):
+        pre = ctx.ghost.get("pre")
+        if pre:
+            k = JD.mk(pre["p"], pre["me"])
+            interp.ex.oblige(self.oname("crash:other_jobs_and_the_state_point_file_untouched"),
+                             z3.And(jd_frame(ctx.fs0, fs, pre["p"], pre["me"]), fs.ent[k][Name.SP] == ctx.fs0.ent[k][Name.SP]))
+
+    def post(self, interp, case, pre, outcome):
+        ex, ctx = interp.ex, interp.ctx
+        fs0, fs, p, me = ctx.fs0, ctx.fs, pre["p"], pre["me"]
+        k = JD.mk(p, me)
+        nm = z3.Const("po_nm", Name)
+        ex.oblige(self.oname("frame:other_jobs_and_the_state_point_file_untouched"), z3.And(jd_frame(fs0, fs, p, me), fs.ent[k][Name.SP] == fs0.ent[k][Name.SP]))
+        if outcome[0] == "return":
+            ex.oblige(self.oname("ensures:uninitialised_job_is_left_alone"), z3.Implies(z3.Not(fs0.dirs[k]), fs.eq(fs0)))
+            ex.oblige(self.oname("ensures:every_data_file_and_directory_is_gone"),
+                      z3.Implies(fs0.dirs[k], z3.ForAll([nm], z3.Implies(z3.And(nm != Name.SP, nm != Name.DOC), fs.ent[k][nm] == Node.Absent))))
+            ex.oblige(self.oname("ensures:job_directory_stays"), z3.Implies(fs0.dirs[k], fs.dirs[k]))
+            ex.oblige(self.oname("ensures:document_is_cleared_not_removed"), z3.Implies(fs0.dirs[k], Node.is_File(fs.ent[k][Name.DOC])))
+        else:
+            ex.oblige(self.oname("raises:only_an_injected_OSError"), z3.BoolVal(isinstance(outcome[1], SymOSError)))
+
+
+def stub_job_clear(interp, b):
+    """callee view of Job.clear (clauses of JobClear.post)"""
+    ex, ctx = interp.ex, interp.ctx
+    job = b["self"]
+    p, me = job.fields["_project"].p, job.fields["_id"].e
+    k = JD.mk(p, me)
+    fs = ctx.fs
+    if not ex.decide(fs.dirs[k], "clear:dir-exists"):
+        return None
+    f1 = FS.fresh(ex.fresh_name("cleared"))
+    nm = z3.Const("cl_nm", Name)
+    ex.assume(z3.And(jd_frame(fs, f1, p, me), f1.dirs == fs.dirs, f1.ws == fs.ws, f1.ent[k][Name.SP] == fs.ent[k][Name.SP]))
+    if ctx.faults and ex.decide(None, "fault:clear"):
+        ctx.effect(interp, "Job.clear (failed part way)", f1)
+        e = z3.Int(ex.fresh_name("errno"))
+        ex.assume(z3.And(e != errno.ENOENT, e > 0))
+        raise RaiseSignal(SymOSError(e))
+    ex.assume(z3.And(z3.ForAll([nm], z3.Implies(z3.And(nm != Name.SP, nm != Name.DOC), f1.ent[k][nm] == Node.Absent)), Node.is_File(f1.ent[k][Name.DOC])))
+    ctx.effect(interp, "Job.clear", f1)
+    from .jobfs import SDoc
+    if job.fields["_document"] is None:
+        job.fields["_document"] = SDoc(LIn(p, me, Name.DOC), True)
+    return None
+
+
+class JobReset(FSContract):
+    target = f"{JOB}.Job.reset"
+    properties = ("C03", "C11")
+    callees = {f"{JOB}.Job.clear": stub_job_clear, f"{JOB}.Job.init": stub_job_init}
+
+    def setup(self, interp, case):
+        ex, ctx = interp.ex, interp.ctx
+        ctx.fs_init(ex)
+        proj = mk_project(ex)
+        job = mk_job(interp, proj, "me")
+        pre = {"job": job, "p": proj.p, "me": job.me}
+        ctx.ghost["pre"] = pre
+        return [job], {}, pre
+
+    def post(self, interp, case, pre, outcome):
+        ex, ctx = interp.ex, interp.ctx
+        fs0, fs, p, me = ctx.fs0, ctx.fs, pre["p"], pre["me"]
+        k = JD.mk(p, me)
+        nm = z3.Const("po_nm", Name)
+        ex.oblige(self.oname("frame:other_jobs_untouched"), jd_frame(fs0, fs, p, me))
+        if outcome[0] == "return":
+            ex.oblige(self.oname("ensures:job_is_initialised_with_a_valid_state_point"), fs.valid(p, me))
+            ex.oblige(self.oname("ensures:no_data_files_left"),
+                      z3.Implies(fs0.dirs[k], z3.ForAll([nm], z3.Implies(z3.And(nm != Name.SP, nm != Name.DOC), fs.ent[k][nm] == Node.Absent))))
+
+
+CONTRACTS += [JobClear(), JobReset()]
